@@ -123,7 +123,6 @@ Definition cl_truthful (c : cfg) : bool :=
 Definition wf (c : cfg) : bool :=
   forallb hdr_ok (pre c) && forallb (fun h => negb (is_framing (fst h))) (pre c)
   && nocr (reason c) && (100 <=? status c) && (status c <=? 999)
-  && (negb (stream c) || negb (sized c) || match chunks c with [] => true | _ => false end)
   && forallb (fun v => hdr_ok (str "Set-Cookie", v)) (cookies c)
   && cl_truthful c.
 
@@ -272,7 +271,7 @@ Qed.
 Lemma wf_parts : forall c, wf c = true ->
   forallb hdr_ok (pre c) = true /\ forallb (fun h => negb (is_framing (fst h))) (pre c) = true
   /\ nocr (reason c) = true /\ (100 <=? status c) && (status c <=? 999) = true
-  /\ (negb (stream c) || negb (sized c) || match chunks c with [] => true | _ => false end) = true
+  /\ True
   /\ forallb (fun v => hdr_ok (str "Set-Cookie", v)) (cookies c) = true
   /\ cl_truthful c = true.
 Proof.
@@ -484,32 +483,24 @@ Qed.
 
 (* ------------------------------------------------------------------ the bytes of one response *)
 Definition body_pieces (c : cfg) : list bytes :=
-  if eff_stream c && truthy c then eff_chunks c else [concat (eff_chunks c)].
+  if streamed c then eff_chunks c else [concat (eff_chunks c)].
 Definition body_wire (c : cfg) : bytes :=
   if chunked c then concat (map frame (filter nonempty (body_pieces c))) ++ term
   else concat (eff_chunks c).
 
-Lemma stream_not_sized : forall c, wf c = true -> eff_stream c && truthy c = true -> eff_sized c = false.
-Proof.
-  intros c H Hs. apply wf_parts in H. destruct H as [_ [_ [_ [_ [H _]]]]].
-  unfold eff_stream, truthy, eff_sized, eff_chunks in *.
-  destruct (nobody_status (status c)), (stream c), (sized c), (chunks c); simpl in *; congruence.
-Qed.
-
 Lemma map_id_ext : forall (l : list bytes), map (fun d => d) l = l.
 Proof. induction l; simpl; congruence. Qed.
 
-Lemma respond_form : forall c, wf c = true -> head c = false ->
-  respond c <> Crash /\ wire c = head_bytes c ++ body_wire c /\ closed c = close1 c.
+Lemma respond_form : forall c, head c = false ->
+  wire c = head_bytes c ++ body_wire c /\ closed c = close1 c.
 Proof.
-  intros c H Hh. unfold wire, closed, respond, body_wire, body_pieces. rewrite Hh.
-  destruct (eff_stream c && truthy c) eqn:Est.
-  - rewrite (stream_not_sized c H Est).
-    split; [discriminate|]. split; [|reflexivity].
+  intros c Hh. unfold wire, closed, respond, body_wire, body_pieces. rewrite Hh.
+  destruct (streamed c) eqn:Est.
+  - split; [|reflexivity].
     destruct (chunked c).
     + cbn [app concat]. rewrite concat_app. cbn [concat]. rewrite app_nil_r. reflexivity.
     + cbn [app concat]. rewrite app_nil_r. rewrite map_id_ext, concat_filter_nonempty. reflexivity.
-  - split; [discriminate|]. split; [|reflexivity].
+  - split; [|reflexivity].
     destruct (chunked c); destruct (concat (eff_chunks c)) eqn:Eb; cbn [nonempty app concat filter map];
       repeat rewrite app_nil_r; reflexivity.
 Qed.
@@ -561,7 +552,7 @@ Proof.
   - unfold wire. rewrite respond_head by assumption. cbn [concat]. rewrite app_nil_r.
     rewrite <- Hh at 1. rewrite parse_head_ok by assumption. rewrite Hh. cbn [orb].
     unfold mkresp, expected. rewrite Hh. reflexivity.
-  - destruct (respond_form c H Hh) as [_ [Hw _]]. rewrite Hw. rewrite <- app_assoc.
+  - destruct (respond_form c Hh) as [Hw _]. rewrite Hw. rewrite <- app_assoc.
     rewrite <- Hh at 1. rewrite parse_head_ok by assumption. rewrite Hh. cbn [orb].
     assert (Hexp : mkresp c (concat (eff_chunks c)) (close1 c) = expected c)
       by (unfold mkresp, expected; rewrite Hh; reflexivity).
@@ -572,7 +563,7 @@ Proof.
     + unfold body_wire. destruct (chunked c) eqn:Ech.
       * rewrite <- app_assoc. rewrite parse_chunks_ok.
         -- rewrite concat_filter_nonempty. unfold body_pieces.
-           destruct (eff_stream c && truthy c); cbn [concat]; repeat rewrite app_nil_r; rewrite Hexp; reflexivity.
+           destruct (streamed c); cbn [concat]; repeat rewrite app_nil_r; rewrite Hexp; reflexivity.
         -- apply filter_nonempty_all.
         -- repeat rewrite app_length.
            pose proof (frames_length (filter nonempty (body_pieces c))). lia.
@@ -588,14 +579,7 @@ Lemma closed_close1 : forall c, wf c = true -> closed c = close1 c.
 Proof.
   intros c H. destruct (head c) eqn:Hh.
   - unfold closed. rewrite respond_head by assumption. reflexivity.
-  - apply (respond_form c H Hh).
-Qed.
-
-Lemma no_crash : forall c, wf c = true -> respond c <> Crash.
-Proof.
-  intros c H. destruct (head c) eqn:Hh.
-  - rewrite respond_head by assumption. discriminate.
-  - apply (respond_form c H Hh).
+  - apply (respond_form c Hh).
 Qed.
 
 (* the connection is closed iff the response, as read by the client, announces it *)
@@ -614,7 +598,7 @@ Proof.
   - unfold wire. rewrite respond_head by assumption. cbn [concat]. apply app_nil_r.
   - destruct (head c) eqn:Hh.
     + unfold wire. rewrite respond_head by assumption. cbn [concat]. apply app_nil_r.
-    + destruct (respond_form c H Hh) as [_ [Hw _]]. rewrite Hw.
+    + destruct (respond_form c Hh) as [Hw _]. rewrite Hw.
       destruct (cl_nobody c Hn) as [_ [Hch Hck]].
       unfold body_wire. rewrite Hck, Hch. apply app_nil_r.
 Qed.
@@ -753,4 +737,14 @@ Proof.
   - rewrite <- app_comm_cons. rewrite firstn_skipn. reflexivity.
   - assumption.
   - simpl in Hf. pose proof (skipn_length k d). lia.
+Qed.
+
+(* the stream flag does not matter for a complete body: header block, then the body in one piece *)
+Lemma sized_written_at_once : forall c, eff_sized c = true -> head c = false ->
+  streamed c = false /\ wire c = head_bytes c ++ concat (eff_chunks c).
+Proof.
+  intros c Hs Hh. split.
+  - unfold streamed. rewrite Hs. apply andb_false_r.
+  - destruct (respond_form c Hh) as [Hw _]. rewrite Hw. unfold body_wire, chunked.
+    rewrite (sized_has_cl c Hs). reflexivity.
 Qed.
